@@ -271,6 +271,7 @@ func CmpOf(v ssa.Value) (Cmp, bool) {
 	default:
 		return Cmp{}, false
 	}
+	c.XV, c.YV = Unspill(c.XV), Unspill(c.YV)
 	c.X, c.Y = Expr(c.XV), Expr(c.YV)
 	if c.Op == "==" && c.Y < c.X {
 		c.X, c.Y, c.XV, c.YV = c.Y, c.X, c.YV, c.XV
